@@ -250,13 +250,8 @@ func (s *Solver) Check() Result {
 				// the solver ignored its soft timeout: restart it and
 				// report unknown; the caller re-sends its assertions
 				s.Stats.Restarts++
-				depth := len(s.marks)
 				s.cmd.Wait()
 				s.start()
-				for i := 0; i < depth; i++ {
-					s.marks = append(s.marks, [2]int{0, 0})
-					s.send("(push 1)\n")
-				}
 				s.Gen++
 				r = Unknown
 				break
